@@ -97,7 +97,7 @@ class Check:
     # ------------------------------------------------------------------
     def finish(self):
         wall = time.time() - self.t0
-        evdir = os.path.join(VERIF, 'evidence')
+        evdir = os.environ.get('VERIF_EVIDENCE_DIR') or os.path.join(VERIF, 'evidence')
         os.makedirs(os.path.join(evdir, 'replay'), exist_ok=True)
         # stale replays of this property are removed
         for f in os.listdir(os.path.join(evdir, 'replay')):
